@@ -181,4 +181,18 @@ example : matchFile limit ⟨[104], []⟩ (List.replicate 1100 32 ++ [114, 109])
   show 1024 < (List.replicate 1100 (32 : UInt8) ++ [114, 109]).length
   rw [List.length_append, List.length_replicate]; decide
 
+/-! tie to lfs/attribute.go as it is in /repo now -/
+/-- Attribute.Install does two things with its receiver: it normalises a key and sets it (`set` refuses a differing
+    value without --force).  It never calls Uninstall or anything else that could remove what the user had set
+    (seventh-round seed C20: a "rollback" that removed the whole section) -/
+theorem gen_install_only_sets_keys :
+    Gen.attributeInstallCalls =
+      [
+       -- a.normalizeKey: k | 
+       [97, 46, 110, 111, 114, 109, 97, 108, 105, 122, 101, 75, 101, 121, 58, 32, 107, 32, 124, 32],
+       -- a.set: opt.GitConfig, key, v, upgradeables, opt | 
+       [97, 46, 115, 101, 116, 58, 32, 111, 112, 116, 46, 71, 105, 116, 67, 111, 110, 102, 105, 103, 44, 32, 107, 101, 121, 44, 32, 118, 44, 32, 117, 112, 103, 114, 97, 100, 101, 97, 98, 108, 101, 115, 44, 32, 111, 112, 116, 32, 124, 32]
+      ]
+      := by decide
+
 end C20
